@@ -1,12 +1,16 @@
-"""C14 -- message builder check (Trace_Wire.tla, clauses C14_*)."""
+"""C14 -- message builder check (Trace_Wire.tla, clauses C14_*; spec/Build.tla explored and replayed, props/buildmodel.py)."""
 from __future__ import annotations
 
+from props import buildmodel as bm
 from props.wire_run import run_family
 from vf.core import Ctx
 
 
 def run(ctx: Ctx) -> None:
-    run_family(ctx, 'C14', 1500, 40000)
+    info = bm.check_models(ctx)
+    msgs, preds, total = bm.model_messages(ctx, ctx.pick(6000, 400000))
+    cases = run_family(ctx, 'C14', 1500, 40000, msgs)
+    bm.drift(ctx, cases, preds, total, info)
 
 
 def replay(ctx: Ctx, path: str) -> None:
